@@ -502,7 +502,7 @@ func (fr *Frame) loopHead(li *loopInfo, phis []*ssa.Phi) {
 	// 3. assume invariants
 	fr.assumeGlobalInvariants()
 	for i, inv := range li.lc.Invariants {
-		t, err := fr.evalClause(inv, &evalCtx{fr: fr, st: fr.st, old: fr.entry, loop: li})
+		t, err := fr.evalClause(inv, &evalCtx{fr: fr, st: fr.st, old: fr.entry, loop: li, assuming: true})
 		if err != nil {
 			_ = i
 			continue
